@@ -163,7 +163,9 @@ class Prov:
             e = self._local(l)
         finally:
             self._active.discard(l)
-        self._memo[l] = e
+        # a value computed while an enclosing cycle was being cut is not final: do not cache it
+        if not self._active or not any(x == ("cycle",) for x in walk(e)):
+            self._memo[l] = e
         return e
 
     def _local(self, l):
@@ -176,6 +178,9 @@ class Prov:
             else:
                 alts.append(("param", l, name or ("arg%d" % l)))
         for lhs, kind, payload, blk, _line in self.defs.get(l, ()):
+            if lhs.proj and lhs.proj[0] == "*":
+                # write through a reference held in this local: does not redefine the local itself
+                continue
             if kind == "rv":
                 e = self.rvalue(payload, blk)
             elif kind == "call":
@@ -329,6 +334,7 @@ TRANSPARENT = [
     (r".*::clone::Clone>::clone", [0]),
     (r".*::Clone::clone", [0]),
     (r"(std|core)::convert::(Into::into|From::from|AsRef::as_ref|AsMut::as_mut)", [0]),
+    (r"(std|core)::convert::num::from", [0]),
     (r"(std|core)::ops::(Deref::deref|DerefMut::deref_mut)", [0]),
     (r"(std|core)::borrow::(Borrow::borrow|BorrowMut::borrow_mut)", [0]),
     (r"(std|core)::option::Option::(as_ref|as_mut|as_deref|unwrap|expect|cloned|copied|take|unwrap_or_default)", [0]),
